@@ -47,6 +47,8 @@ def rand_script(rng, n, user):
         r = rng.random()
         if user and phase == "live" and r < 0.25:
             k = rng.random()
+            if user == "listen":
+                k = 0.1 if len(listeners) < 2 else 2.0      # C07: application listeners only, no requests
             if k < 0.2 and len(listeners) < 2:
                 l = rng.choice([x for x in ("l1", "l2") if x not in listeners])
                 listeners.add(l)
@@ -240,7 +242,7 @@ def run(pid, tier, seed):
     for i in range(200 if tier == "quick" else 2500):
         closing_c, closing_s, failed_c, taddr, zombie = set(), set(), {}, {}, {}
         scripts.append(("random", rand_script(rng, rng.choice([30, 80, 200]) if tier == "quick" else rng.choice([50, 200, 600]),
-                                              user=(pid == "C08"))))
+                                              user=(True if pid == "C08" else "listen" if i % 2 else False))))
     traces, seen = [], set()
     for src, s in scripts:
         t = tsm.replay(s, (1, 2, 3), (1, 2, 3))
